@@ -50,6 +50,7 @@ def _guard_unmodelled_decorators(ck):
 
 
 def main(argv=None) -> int:
+    sys.setrecursionlimit(20000)         # terms are walked recursively; helpers read through several levels nest deeply
     ap = argparse.ArgumentParser()
     ap.add_argument("prop")
     ap.add_argument("--tier", default=os.environ.get("VERIF_TIER", "quick"))
